@@ -18,10 +18,11 @@ const (
 	YBlockSingle                  // block collections, single-quoted strings where representable
 	YFlowDouble                   // flow collections (JSON-like), double-quoted, non-ASCII escaped
 	YBlockPlain                   // block collections, plain scalars only when a conservative allow-list says so
+	YBlockLiteral                 // block collections, multi-line string VALUES as literal block scalars (|), the rest double-quoted
 )
 
 func (s YamlStyle) String() string {
-	return [...]string{"block/double-quoted", "block/single-quoted", "flow/double-quoted", "block/plain-when-safe"}[s]
+	return [...]string{"block/double-quoted", "block/single-quoted", "flow/double-quoted", "block/plain-when-safe", "block/literal-scalars"}[s]
 }
 
 var plainSafe = regexp.MustCompile(`^[A-Za-z][A-Za-z0-9_]*( [A-Za-z0-9_]+)*$`)
@@ -135,6 +136,57 @@ func yamlScalar(v any, st YamlStyle) (string, bool) {
 	return "", false
 }
 
+// literalBlock writes s as a literal block scalar (header and content lines)
+// for a parent at the given indentation, if s can be carried that way: it has
+// a line break, every character is printable (or a tab), no line consists of
+// white space only, and there is some content before the trailing line breaks.
+// The header always carries the explicit indentation indicator 2.
+func literalBlock(s string, indent int) (string, bool) {
+	if !strings.Contains(s, "\n") {
+		return "", false
+	}
+	for _, r := range s {
+		if r == '\n' || r == '\t' {
+			continue
+		}
+		if r < 0x20 || r == 0x7f || !unicode.IsPrint(r) || r == 0x85 || r == 0x2028 || r == 0x2029 || r == 0xFEFF || r == 0xA0 {
+			return "", false
+		}
+	}
+	body := strings.TrimRight(s, "\n")
+	k := len(s) - len(body)
+	if body == "" {
+		return "", false
+	}
+	lines := strings.Split(body, "\n")
+	for _, l := range lines {
+		if l != "" && strings.TrimLeft(l, " \t") == "" {
+			return "", false
+		}
+	}
+	head := "|2-"
+	switch {
+	case k == 1:
+		head = "|2"
+	case k >= 2:
+		head = "|2+"
+	}
+	pad := strings.Repeat(" ", indent+2)
+	var b strings.Builder
+	b.WriteString(head + "\n")
+	for _, l := range lines {
+		if l == "" {
+			b.WriteString("\n")
+		} else {
+			b.WriteString(pad + l + "\n")
+		}
+	}
+	for e := 1; e < k; e++ {
+		b.WriteString("\n")
+	}
+	return b.String(), true
+}
+
 // YamlEmit renders a plain value as YAML without using any YAML library.
 func YamlEmit(v any, st YamlStyle) string {
 	if IsVoid(v) {
@@ -177,6 +229,12 @@ func yamlBlock(b *strings.Builder, v any, indent int, st YamlStyle) {
 	switch t := v.(type) {
 	case []any:
 		for _, e := range t {
+			if str, isStr := e.(string); isStr && st == YBlockLiteral {
+				if lb, ok := literalBlock(str, indent); ok {
+					b.WriteString(pad + "- " + lb)
+					continue
+				}
+			}
 			if s, ok := yamlScalar(e, st); ok {
 				b.WriteString(pad + "- " + s + "\n")
 			} else {
@@ -187,6 +245,12 @@ func yamlBlock(b *strings.Builder, v any, indent int, st YamlStyle) {
 	case map[string]any:
 		for _, k := range SortedKeys(t) {
 			key := yamlString(k, st)
+			if str, isStr := t[k].(string); isStr && st == YBlockLiteral {
+				if lb, ok := literalBlock(str, indent); ok {
+					b.WriteString(pad + key + ": " + lb)
+					continue
+				}
+			}
 			if s, ok := yamlScalar(t[k], st); ok {
 				b.WriteString(pad + key + ": " + s + "\n")
 			} else {
